@@ -246,6 +246,12 @@ def run(ctx):
                 if dd:
                     rep.ok('R1', 'digit-value-is-some:%s' % b.fn_name, where(b, bi), dd)
                     continue
+                if 'Index<I>>::index' in n:
+                    from .C20 import _const_index_under_len_guard
+                    gi = _const_index_under_len_guard(b, cfg, tr, bi, t)
+                    if gi:
+                        rep.ok('R1', 'index-below-guarded-length:%s' % b.fn_name, where(b, bi), gi)
+                        continue
                 rep.fail('R1', '%s/%s' % (b.fn_name, n.rsplit('::', 1)[-1]), where(b, bi),
                          '%s can panic on some input string: the parser must report an error instead' % n)
     if n_debug:
@@ -281,9 +287,20 @@ def run(ctx):
         if t['dest']['ty'].startswith('std::result::Result<') and not call_matches(t, 'Try>::branch', 'FromResidual'):
             n_res += 1
             from ..mirutil import uses_of_local
-            uses = [u for u in uses_of_local(fo, t['dest']['l'])]
-            okp = t['dest']['l'] == 0 or any(u[2] == 'callarg' and call_matches(fo.blocks[u[0]]['term'], 'Try>::branch', 'Try::branch')
-                                            for u in uses)
+            # the names the value is known by (a spliced helper's result is moved into the caller's local before its `?`)
+            flow = {t['dest']['l']}
+            grew = True
+            while grew:
+                grew = False
+                for bb2 in fo.blocks:
+                    for s2 in bb2['stmts']:
+                        if s2['s'] == 'assign' and not s2['place']['p'] and s2['rv']['r'] == 'use' and s2['rv']['a'].get('l') in flow \
+                                and not s2['rv']['a'].get('p') and s2['place']['l'] not in flow:
+                            flow.add(s2['place']['l'])
+                            grew = True
+            uses = [u for l2 in flow for u in uses_of_local(fo, l2)]
+            okp = 0 in flow or any(u[2] == 'callarg' and call_matches(fo.blocks[u[0]]['term'], 'Try>::branch', 'Try::branch')
+                                   for u in uses)
             rep.check(okp, 'R1', 'error-propagated:%s' % (callee_name(t) or '').rsplit('::', 1)[-1], where(fo, bi),
                       'Result goes through `?`', 'a Result in the parser is unwrapped or dropped')
     transition_lemmas(ctx, fo)
@@ -401,7 +418,9 @@ def transition_lemmas(ctx, fo):
             defs_out = [x for x in tr.defs.of(l) if x[0] not in body and x[0] in cfg.reach]
             if (defs_in and defs_out) or (pw_in and defs_out):
                 ty = fo.local_ty(l)
-                if ty in ('f64', 'bool', 'std::option::Option<char>', 'char') or pw_in:
+                scalar = ty in ('f64', 'bool', 'char', 'u8', 'u32', 'u64', 'usize', 'i32', 'i64') or \
+                    ty.startswith('std::option::Option<') or f.norm(ty) in f.adts
+                if scalar or pw_in:
                     state.append(l)
         # a matrix written through index_mut inside the loop
         mat_l = None
@@ -635,6 +654,38 @@ def _cell_wiring(ctx, fo, cfg, tr, cells):
             fp = field_path(o['p'])
             return 'v%d' % o['l'] + (''.join('.' + x for x in fp) if fp else '')
         return None
+    from ..loops import for_loops
+    array_loops = {}
+    for d2 in for_loops(fo, cfg, tr):
+        if d2['chain_terms'] and all(c2[0] in ('enumerate', 'iter', 'into_iter', 'iter_mut') for c2 in d2['chain_terms']):
+            so = tr.origin(d2['chain_terms'][-1][1]['args'][0])
+            if so['o'] == 'rvalue' and so['rv'].get('r') == 'aggr' and so['rv'].get('agg') == 'array':
+                array_loops[d2['header']] = (so['rv']['ops'], any(c2[0] == 'enumerate' for c2 in d2['chain_terms']))
+
+    def resolve_multi(op):
+        """resolve(), and for the item of a loop over an array literal `[a, b]` one resolution per element."""
+        o, _ = through(tr, op)
+        if o['o'] == 'call' and call_matches(o['term'], '::next') and o.get('bb') in array_loops:
+            elems, enum = array_loops[o['bb']]
+            p = list(o['p'])
+            # Some payload, then (for enumerate) the second tuple component, then an optional deref
+            if p and isinstance(p[0], dict) and 'downcast' in p[0]:
+                p = p[1:]
+            if p and isinstance(p[0], dict) and p[0].get('f') == 0:
+                p = p[1:]
+            if enum:
+                if not (p and isinstance(p[0], dict) and p[0].get('f') == 1):
+                    return [None]
+                p = p[1:]
+            p = [e for e in p if e not in ('deref', 'ref')]
+            out = []
+            for e in elems:
+                if 'l' not in e:
+                    out.append(None)
+                    continue
+                out.append(resolve(dict(e, k='copy', p=list(e['p']) + p)))
+            return out
+        return [resolve(op)]
     want = {}
     for c in cells:
         for j, k in enumerate(('x', 'y', 'const')):
@@ -662,12 +713,19 @@ def _cell_wiring(ctx, fo, cfg, tr, cells):
                 rl = t['dest']['l']
                 for (w2, wsi, pl, rv) in tr.defs.dwrites.get(rl, []):
                     if rv.get('r') == 'use' and rv['a'].get('l') is not None and col in (0, 1, 2):
-                        got = resolve(rv['a'])
+                        gots = resolve_multi(rv['a'])
                         n_wired += 1
                         bi = wbi
                         cands = {c[('x', 'y', 'const')[col]] for c in cells}
-                        if got not in cands:
-                            bad.append('column %d is written from %s, expected the %s cell %s' % (col, got, ('x', 'y', 'constant')[col], sorted(cands)))
+                        for ei, got in enumerate(gots):
+                            if got not in cands:
+                                bad.append('column %d is written from %s, expected the %s cell %s' % (col, got, ('x', 'y', 'constant')[col], sorted(cands)))
+                            elif len(gots) > 1:
+                                # element ei of the array literal is written to row ei (the enumerate index): it must be the
+                                # cell of the ei-th row parsed
+                                wantc = [c[('x', 'y', 'const')[col]] for c in cells if c['row'] == ei]
+                                if wantc and got not in wantc:
+                                    bad.append('row %d column %d is written from %s, the cell of another row (expected %s)' % (ei, col, got, wantc))
     rep.check(not bad and n_wired >= 3, 'R3', 'row-cells-reach-the-matrix', where(fo, bi) if bi is not None else where(fo),
               'entries (row, 0..2) = x, y, constant cells of that row (%d checked)' % n_wired,
               '; '.join(bad[:3]) or 'cannot find how the rows are assembled into the matrix')
